@@ -2,7 +2,10 @@
    schema  ::= '(' field {',' field} ')'
    field   ::= NAMEHEX ':' ('R'|'O'|'P') ( ':' TYHEX | '(' field {',' field} ')' )
    row     ::= column {'|' column}          column ::= '_' | entry {';' entry}
-   entry   ::= R '.' D '.' ('N' | 'x' HEX)  (levels decimal) *)
+   entry   ::= R '.' D '.' ('N' | 'x' HEX)  (levels decimal)
+   A conversion is named by three schemas: the source, the target in which the
+   nodes that are required in the source are required (tgtn), and the target
+   (tgt, = tgtn unless it reads required nodes as optional ones). *)
 open Conv
 
 exception Parse of string
@@ -67,42 +70,51 @@ let guard f = try f () with Parse m -> "ERR parse " ^ m
 
 let () =
   register "c12.convert" (function
-    | mode :: src :: tgt :: rows -> guard (fun () ->
-        let s = parse_schema src and t = parse_schema tgt in
+    | mode :: src :: tgtn :: tgt :: rows -> guard (fun () ->
+        let s = parse_schema src and tn = parse_schema tgtn and t = parse_schema tgt in
         let one row =
           let cols = parse_row row in
           match mode with
-          | "fixed" -> (match Model.convert_bytes s t cols with Some c -> show_row c | None -> "REJECT")
-          | "general" -> show_row (Model.convert_general_bytes s t cols)
-          | "pinned" -> show_row (Model.convert_pinned_bytes s t cols)
+          | "fixed" -> (match Model.convert_widen_bytes s tn t cols with Some c -> show_row c | None -> "REJECT")
+          | "general" -> show_row (Model.convert_general_bytes s tn cols)
+          | "pinned" -> show_row (Model.convert_pinned_bytes s tn cols)
           | _ -> raise (Parse "mode") in
         String.concat " " (List.map one rows))
     | _ -> failwith "c12.convert args");
   register "c12.project" (function
-    | src :: tgt :: fuel :: rows -> guard (fun () ->
-        let s = parse_schema src and t = parse_schema tgt in
+    | src :: tgtn :: tgt :: fuel :: rows -> guard (fun () ->
+        let s = parse_schema src and tn = parse_schema tgtn and t = parse_schema tgt in
         let fuel = nat_of_int (int_of_string fuel) in
         let one row =
-          match Model.project_bytes s t fuel (parse_row row) with
+          match Model.project_widen_bytes s tn t fuel (parse_row row) with
           | Some c -> show_row c
           | None -> "NONE" in
         String.concat " " (List.map one rows))
     | _ -> failwith "c12.project args");
   register "c12.plan" (function
-    | [mode; src; tgt] -> guard (fun () ->
-        let s = parse_schema src and t = parse_schema tgt in
+    | [mode; src; tgtn; tgt] -> guard (fun () ->
+        let s = parse_schema src and t = parse_schema tgtn and tw = parse_schema tgt in
         (match mode with
          | "fixed" -> tok_of_list show_action (Model.plan_bytes s t O O)
-         | "columns" -> tok_of_list action_column (Model.plan_bytes s t O O)
+         | "columns" ->
+             tok_of_list (function Some i -> string_of_int (int_of_nat i) | None -> "-1") (Model.columns_of_bytes s t tw)
          | "pinned" ->
              tok_of_list (fun a -> match Model.pinned_column a with Some i -> string_of_int (int_of_nat i) | None -> "-1")
                (Model.plan_pinned_bytes s t)
          | _ -> raise (Parse "mode")))
     | _ -> failwith "c12.plan args");
+  (* c12.sorting FLAGS: one character per sorting column of the source row group, '1' when the target keeps
+     the column; answers how many sorting columns the converted row group declares *)
+  register "c12.sorting" (function
+    | [flags] -> guard (fun () ->
+        let l = List.init (String.length flags) (fun i ->
+          match flags.[i] with '1' -> true | '0' -> false | _ -> raise (Parse "flag")) in
+        string_of_int (int_of_nat (Model.kept_count l)))
+    | _ -> failwith "c12.sorting args");
   register "c12.compat" (function
-    | [src; tgt] -> guard (fun () ->
-        let s = parse_schema src and t = parse_schema tgt in
-        Printf.sprintf "%s%s%s%s"
-          (tok_of_bool (Model.compat s t)) (tok_of_bool (Model.wf_nschemab s)) (tok_of_bool (Model.wf_nschemab t))
-          (tok_of_bool (Model.nschema_eqb s t)))
+    | [src; tgtn; tgt] -> guard (fun () ->
+        let s = parse_schema src and tn = parse_schema tgtn and t = parse_schema tgt in
+        Printf.sprintf "%s%s%s%s%s"
+          (tok_of_bool (Model.compat s tn)) (tok_of_bool (Model.wf_nschemab s)) (tok_of_bool (Model.wf_nschemab t))
+          (tok_of_bool (Model.nschema_eqb s t)) (tok_of_bool (Model.widens tn t)))
     | _ -> failwith "c12.compat args")
